@@ -6,7 +6,7 @@
 (* treated as a potential offset, size or count field.                      *)
 EXTENDS Naturals, Integers, Sequences
 
-(* StructuredMutants (gen/pegen.py): a generated PE is a set of chunks C with sizes; a structured mutant is           *)
+(* StructuredMutants (gen/pegen.py, gen/elfgen.py): a generated PE / ELF is a set of chunks C with sizes; a mutant is  *)
 (*   <<last, cut, inflate>> with last \in C (that chunk is laid out at the very end of the file), cut \in 0..size[last] *)
 (*   bytes removed from the end, inflate \in (count fields) \X {1,2,3,16,255,2^15-1,2^16-1,2^16,2^31-1,2^32-1,-1} added *)
 (*   to one count / size field - so that for every table "the table ends exactly where the buffer ends" is reached.    *)
